@@ -133,8 +133,10 @@ class HTTPRequestParser:
                 # Remove preceding blank lines. This is suggested by
                 # https://tools.ietf.org/html/rfc7230#section-3.5 to support
                 # clients sending an extra CR LF after another request when
-                # using HTTP pipelining
-                header_plus = header_plus.lstrip()
+                # using HTTP pipelining. Only CR LF pairs are removed: any
+                # other leading whitespace makes the request line invalid.
+                while header_plus.startswith(b"\r\n"):
+                    header_plus = header_plus[2:]
 
                 if not header_plus:
                     self.empty = True
@@ -209,7 +211,7 @@ class HTTPRequestParser:
         index = header_plus.find(b"\r\n")
 
         if index >= 0:
-            first_line = header_plus[:index].rstrip()
+            first_line = header_plus[:index]
             header = header_plus[index + 2 :]
         else:
             raise ParsingError("HTTP message header invalid")
